@@ -108,6 +108,7 @@ func init() {
 			e.assertPC(Eq(tag, IntI(int64(lo))))
 		}
 		k := e.decide(alts)
+		e.assertPC(Eq(tag, IntI(int64(lo+k))))
 		return []Value{BVU(uint64(lo+k), 64)}
 	}
 	intrinsics["verifChoice"] = func(e *Exec, fn *ssa.Function, a []Value) []Value {
@@ -122,7 +123,9 @@ func init() {
 		} else {
 			alts[0] = True
 		}
-		return []Value{BVU(uint64(e.decide(alts)), 64)}
+		k := e.decide(alts)
+		e.assertPC(Eq(tag, IntI(int64(k))))
+		return []Value{BVU(uint64(k), 64)}
 	}
 	intrinsics["verifAssume"] = func(e *Exec, fn *ssa.Function, a []Value) []Value {
 		c := a[0].(*Term)
@@ -223,6 +226,7 @@ func init() {
 		rt := fn.Signature.Results().At(0).Type()
 		return []Value{e.symValue(rt, argStr(e, a[0]))}
 	}
+	intrinsics["verifNote"] = func(e *Exec, fn *ssa.Function, a []Value) []Value { return nil }
 	intrinsics["verifDescribe"] = func(e *Exec, fn *ssa.Function, a []Value) []Value {
 		fmt.Printf("DESCRIBE %s: %s\n", argStr(e, a[0]), describe(a[1]))
 		return nil
@@ -336,6 +340,7 @@ func (e *Exec) symValue(t types.Type, name string) Value {
 			}
 			alts[len(alts)-1] = Not(Or(alts[:len(alts)-1]...))
 			n = lo + e.decide(alts)
+			e.assertPC(Eq(tag, IntI(int64(n))))
 		}
 		arr := &ArrayV{E: make([]Value, n)}
 		for i := range arr.E {
